@@ -632,7 +632,7 @@ def _log_pairs(thorough):
     if thorough:
         pairs += [(4, 5), (2, 5), (5, 2), (3, 1), (0, 0), (4, 4)]
     out = [{"_name": "s%d_s%d" % p, "VP_S0": p[0], "VP_S1": p[1]} for p in pairs]
-    for k in ((0, 1, 2, 3, 4, 5) if thorough else (1, 2, 3)):
+    for k in ((0, 1, 2, 3, 4, 5, 6, 7) if thorough else (1, 2, 3)):
         out.append({"_name": "s%d" % k, "VP_S0": k, "VP_S1": k, "ONE_LOAD": None})
     return out
 
